@@ -109,6 +109,7 @@ func runRaceSchedule(seed int, a, b string, props []string, prefix []int, res *v
 	calls := s.deferred
 	results := make([]string, len(calls))
 	th := vx.NewThreads(s.ctx, prefix)
+	th.MaxPoints = 1500
 	for i := range calls {
 		i := i
 		th.Go(fmt.Sprintf("T%d", i), func(ctx context.Context) { results[i] = calls[i](ctx) })
